@@ -76,7 +76,12 @@ func (bldr *BundleBuilder) Build() (bndl Bundle, err error) {
 		return
 	}
 
-	bndl, err = NewBundle(bldr.primary, bldr.canonicals)
+	// The Bundle gets its own copy of the blocks. Otherwise, a further use of this BundleBuilder would
+	// alter (sort, overwrite) the blocks of an already built Bundle through the shared backing array.
+	canonicals := make([]CanonicalBlock, len(bldr.canonicals))
+	copy(canonicals, bldr.canonicals)
+
+	bndl, err = NewBundle(bldr.primary, canonicals)
 	if err == nil {
 		bndl.SetCRCType(bldr.crcType)
 	}
